@@ -21,9 +21,13 @@ CONSTANTS
   MaxSHeld = 0
   StartBeforeEmit = TRUE
   CmdFreshTicket = TRUE
+  TimeoutUsesRemove = FALSE
+  LstCode = "-"
 INVARIANT DistinctTickets
 INVARIANT RegistryExact
 INVARIANT NoOverdue
+INVARIANT AllTold
+PROPERTY TReportedToEveryListener
 PROPERTY TResultIffLive
 PROPERTY TRemovedOnceAtTimeout
 PROPERTY TQuietAfterManualRemoval
